@@ -232,6 +232,8 @@ def _disagree(np, a, ref, abs_tol, rel_tol):
 
 def _c02_judge(impl, case):
     """Judge one case.  Returns dict(status in ok|rejected|witness|refdis, ...)."""
+    if case["op"] == "batch_norm_seq":
+        return _c02_seq_judge(impl, case)
     np = impl.np
     names = _c02_grad_inputs(case)
     arrs = {n: np.array(case[n], dtype=np.float64) for n in names}
@@ -312,6 +314,153 @@ def _c02_judge(impl, case):
     else:
         res.update(status="ok", note="; ".join(notes))
     return res
+
+
+# ------------------------------------------------------------------ batch-norm: several forwards before the backwards
+SEQ_SITES = {"functional": "nn.functional.batch_norm/backward", "layer1d": "nn.BatchNorm1d/backward", "layer2d": "nn.BatchNorm2d/backward"}
+
+
+def _c02_seq_judge(impl, case):
+    """A BatchNorm (functional with SHARED running tensors, or an nn.BatchNorm1d/2d layer) is run forward 2-3 times on
+    different batches in mixed train/eval modes; only then the outputs are back-propagated, in the given order.
+    The gradient each backward call ADDS to x_k / gamma / beta must be the VJP of call k's own forward, i.e. with the
+    running statistics the module held WHEN CALL k RAN.  References: finite differences of that call's forward with the
+    statistics frozen at the implementation's value at that call; PyTorch run on the same sequence."""
+    np, sg, NF, nn = impl.np, impl.synapgrad, impl.NF, impl.nn
+    torch = _torch()
+    form, calls, order = case["form"], case["calls"], case["order"]
+    affine, track = case["weight"] is not None, case["running_mean"] is not None
+    modes = "".join("T" if c["training"] else "E" for c in calls)
+    res = {"site": SEQ_SITES[form], "fwd_mismatch": False,
+           "klass": "sequence modes=%s backward-order=%s affine=%s running=%s" % (modes, "".join(map(str, order)), "yes" if affine else "no", "yes" if track else "no"),
+           "size": 1000 + sum(_prod(_shape_of(c["x"])) for c in calls)}
+    inp = dict(case); inp["oracle"] = "c02"
+    res["input"] = inp
+    f64 = lambda a: np.array(a, dtype=np.float64)
+    T = lambda a, rg: sg.Tensor(f64(a), requires_grad=rg)
+    C = _shape_of(calls[0]["x"])[1]
+    try:
+        with np.errstate(all="ignore"):
+            if form == "functional":
+                w = T(case["weight"], True) if affine else None
+                b = T(case["bias"], True) if affine else None
+                rm = T(case["running_mean"], False) if track else None
+                rv = T(case["running_var"], False) if track else None
+                stats = lambda: (None, None) if not track else (np.array(rm.data, dtype=np.float64).copy(), np.array(rv.data, dtype=np.float64).copy())
+                fwd = lambda x, tr: NF.batch_norm(x, w, b, rm, rv, tr, case["momentum"], case["eps"])
+            else:
+                cls = nn.BatchNorm1d if form == "layer1d" else nn.BatchNorm2d
+                mod = cls(C, eps=case["eps"], momentum=case["momentum"], affine=affine, track_running_stats=track, dtype=np.float64)
+                if affine:
+                    mod.weight.data = f64(case["weight"]); mod.bias.data = f64(case["bias"])
+                if track:
+                    mod.running_mean.data = f64(case["running_mean"]); mod.running_var.data = f64(case["running_var"])
+                w, b = (mod.weight, mod.bias) if affine else (None, None)
+                stats = lambda: (None, None) if not track else (np.array(mod.running_mean.data, dtype=np.float64).copy(),
+                                                                 np.array(mod.running_var.data, dtype=np.float64).copy())
+
+                def fwd(x, tr):
+                    mod.train() if tr else mod.eval()
+                    return mod(x)
+            xs, outs, snaps = [], [], []
+            for c in calls:
+                x = T(c["x"], True)
+                snaps.append(stats())
+                outs.append(fwd(x, c["training"]))
+                xs.append(x)
+    except Exception as e:
+        res.update(status="rejected", note=_short(e))
+        return res
+    # ---- references per call
+    names = ["x"] + (["weight", "bias"] if affine else [])
+    trm = None if not track else torch.tensor(f64(case["running_mean"]))
+    trv = None if not track else torch.tensor(f64(case["running_var"]))
+    refs = []
+    for k, c in enumerate(calls):
+        g = _make_g(np, c.get("gseed", k), tuple(np.shape(outs[k].data)))
+        arrs = {"x": f64(c["x"])}
+        if affine:
+            arrs["weight"], arrs["bias"] = f64(case["weight"]), f64(case["bias"])
+        base = {"op": "batch_norm", "training": bool(c["training"]), "momentum": case["momentum"], "eps": case["eps"],
+                "x": c["x"], "weight": case["weight"], "bias": case["bias"]}
+        fd_case = dict(base, running_mean=None if not track else snaps[k][0].tolist(), running_var=None if not track else snaps[k][1].tolist())
+        th_case = dict(base, running_mean=None if not track else trm.numpy().tolist(), running_var=None if not track else trv.numpy().tolist())
+        try:
+            fg = _c02_fd(impl, fd_case, arrs, g)
+        except Exception:
+            fg = None
+        try:
+            tg, tout = _c02_torch(th_case, arrs, g)
+        except Exception:
+            tg = None
+        if track and c["training"]:      # PyTorch's own in-place update of its buffers for the next call
+            torch.nn.functional.batch_norm(torch.tensor(arrs["x"]), trm, trv, None, None, True, case["momentum"], case["eps"])
+        refs.append((g, fg, tg))
+    # ---- backward calls in the requested order; the contribution of each call is the increase of .grad
+    observed, expected, expected_fd, bad, notes = {}, {}, {}, [], []
+    refdis = False
+    cur = lambda t: None if (t is None or t.grad is None) else np.array(t.grad.data, dtype=np.float64).copy()
+    for k in order:
+        g, fg, tg = refs[k]
+        before = {"weight": cur(w), "bias": cur(b)}
+        try:
+            with np.errstate(all="ignore"):
+                outs[k].backward(sg.Tensor(g.copy()))
+        except Exception as e:
+            res.update(status="witness", observed="backward of output %d raised %s" % (k, _short(e)), expected=None,
+                       note="forwards accepted, backward raised")
+            return res
+        got = {"x": cur(xs[k])}
+        for n, t in (("weight", w), ("bias", b)):
+            if affine:
+                a = cur(t)
+                got[n] = None if a is None else (a if before[n] is None else a - before[n])
+        for n in names:
+            key = "call%d.%s" % (k, n)
+            observed[key] = None if got[n] is None else got[n].tolist()
+            expected[key] = None if tg is None else tg[n].tolist()
+            expected_fd[key] = None if fg is None else fg[n].tolist()
+            if got[n] is None:
+                bad.append("%s: no gradient" % key); continue
+            dt = True if tg is None else _disagree(np, got[n], tg[n], 1e-7, 1e-5)
+            df = True if fg is None else _disagree(np, got[n], fg[n], 1e-6, 1e-4)
+            if dt and df and (tg is not None or fg is not None):
+                bad.append("%s disagrees with PyTorch (same sequence) and with finite differences of call %d's forward" % (key, k))
+            elif dt or df:
+                refdis = True
+                notes.append("%s: references disagree (vs torch: %s, vs FD: %s)" % (key, "differs" if dt else "agrees", "differs" if df else "agrees"))
+    res.update(observed=observed, expected=expected, expected_fd=expected_fd)
+    res.update(status="witness" if bad else ("refdis" if refdis else "ok"), note="; ".join(bad + notes))
+    return res
+
+
+def _c02_bn_seq_cases(rng, quick):
+    import itertools
+    cases = []
+    for n in (2, 3):
+        for modes in itertools.product((False, True), repeat=n):
+            for order in itertools.permutations(range(n)):
+                for rep in range(1 if quick else 4):
+                    for form in (("functional", "layer1d", "layer2d") if (not quick or n == 2) else (rng.choice(["functional", "layer1d", "layer2d"]),)):
+                        C = rng.randint(1, 3)
+                        affine = rng.random() < 0.7
+                        track = rng.random() < 0.85
+                        def shape():
+                            if form == "layer2d":
+                                return (rng.randint(2, 3), C, rng.randint(1, 2), rng.randint(1, 3))
+                            if form == "layer1d":
+                                return rng.choice([(rng.randint(2, 4), C), (rng.randint(2, 3), C, rng.randint(1, 3))])
+                            return rng.choice([(rng.randint(2, 4), C), (rng.randint(2, 3), C, rng.randint(1, 2)), (2, C, rng.randint(1, 2), 2)])
+                        cases.append({"op": "batch_norm_seq", "form": form, "momentum": rng.choice([0.1, 0.5, 0.9]),
+                                      "eps": rng.choice([1e-5, 1e-3, 0.1]),
+                                      "weight": [rng.choice([-1, 1]) * rng.uniform(0.4, 2.5) for _ in range(C)] if affine else None,
+                                      "bias": [rng.uniform(-2.0, 2.0) for _ in range(C)] if affine else None,
+                                      "running_mean": [rng.uniform(-2.0, 2.0) for _ in range(C)] if track else None,
+                                      "running_var": [rng.uniform(0.3, 3.0) for _ in range(C)] if track else None,
+                                      "order": list(order),
+                                      "calls": [{"training": bool(m), "gseed": rng.getrandbits(32),
+                                                 "x": _rand_list(rng, shape(), rng.choice([1.0, 3.0]), rng.choice([0.0, 2.0, -3.0]))} for m in modes]})
+    return cases
 
 
 # ------------------------------------------------------------------ case generation (ctx.rng only)
@@ -398,7 +547,8 @@ def oracle_c02(ctx):
     _torch()
     t0 = time.time()
     rng = ctx.rng
-    cases = _c02_softmax_cases(rng, ctx.quick) + _c02_loss_cases(rng, ctx.quick) + _c02_bn_cases(rng, ctx.quick)
+    cases = _c02_softmax_cases(rng, ctx.quick) + _c02_loss_cases(rng, ctx.quick) + _c02_bn_cases(rng, ctx.quick) \
+        + _c02_bn_seq_cases(rng, ctx.quick)
     by_site = {}
     failing = {}
     n_wit = n_rej = n_refdis = n_fwd = 0
